@@ -2,7 +2,7 @@ import RP.Driver.Common
 import RP.Driver.GameOps
 import RP.Model.Deck
 /-! line-protocol driver for C14: `drawat <deck> <i>` → `<card> <deck'>`; the game ops
-    (`game`, `deck`, `allowed`) of `RP/Driver/GameOps.lean` for the dealing half -/
+    `dealrun <deck> <r>` (hole, hole, flop, turn, river from one kept deck) → five hands and the rest; `redeal <full> <r>` (`Game::deal` on a game that already holds cards) → the two holes; (`game`, `deck`, `allowed`) of `RP/Driver/GameOps.lean` for the dealing half -/
 open RP.Driver
 
 def handle (line : String) : String :=
@@ -12,6 +12,20 @@ def handle (line : String) : String :=
     | some d, some i =>
       let (c, d') := RP.Deck.drawAt d i
       s!"{c} {d'}"
+    | _, _ => "bad-op"
+  | ["dealrun", d, r] =>
+    match d.toNat?, r.toNat? with
+    | some d, some r =>
+      match RP.Deck.dealRun d r with
+      | some (hs, d') => " ".intercalate (hs.map toString) ++ s!" {d'}"
+      | none => "panic"
+    | _, _ => "bad-op"
+  | ["redeal", d, r] =>
+    match d.toNat?, r.toNat? with
+    | some d, some r =>
+      match RP.Deck.drawMany d [r, r, r, r] with
+      | some ([a, b, c, e], _) => s!"{RP.Deck.handOf [a, b]} {RP.Deck.handOf [c, e]}"
+      | _ => "panic"
     | _, _ => "bad-op"
   | _ => RP.Driver.GameOps.handle line
 
